@@ -19,8 +19,19 @@ EXPLANATION = ("static analysis: to_directed and the plain branch of to_undirect
 
 
 def run(repo: Repo, tier, rep: Report):
+    # graph level first (it follows rewrites the per-pair interpretation cannot, e.g. a replay of the stream); findings of either
+    # stand when the other abstains
+    from sa.core import AnalysisError
+    from sa.conv_graph import check_conversions_on_graphs
+    pending = None
+    try:
+        rep.floor("graph-level conversion runs", check_conversions_on_graphs(repo, rep, tier), 300)
+    except AnalysisError as ex:
+        pending = ex
     cc = common.ctor(repo, tier)
     common.take_ctor(rep, cc, ("C16.",))
+    if pending is not None:
+        raise pending
     rep.ob("O.conversions", "DynGraph.to_directed / DynDiGraph.to_undirected", "interval re-adds, nodes, deepcopy, purity decided")
     rep.floor("order types (constructors)", cc.n_ordertypes, 1000)
     for s in [s for s in cc.samples if "to_" in s["function"]][:3]:
@@ -35,10 +46,7 @@ def run(repo: Repo, tier, rep: Report):
     check_purity(repo, addp, only={"to_directed", "to_undirected"})
     from sa.query_check import check_enumeration_dependency
     check_enumeration_dependency(repo, rep, common.enumeration_users(repo, ['to_directed', 'to_undirected']))
-    from sa.conv_graph import check_conversions_on_graphs
-    n = check_conversions_on_graphs(repo, rep, tier)
-    rep.floor("graph-level conversion runs", n, 300)
     rep.assume(*common.CTOR_ASSUMPTIONS)
     rep.assume("graph level: 4-node shapes (reciprocal A<->B, B->C, C->A, isolated D; path A-B-C + D), instants t+1..t+3 plus two "
                "sentinel instants; the recorded calls are replayed by the specification of add_interaction (C01), not by its code")
-    rep.assume("reciprocal branch: timelines of 1..2 intervals per direction (thorough: 2x2); nodes are comparable (u >= v)")
+    rep.assume("reciprocal branch: timelines of 1..2 intervals per direction (thorough: 2x2); the scan order of the node pairs is a choice")
